@@ -10,6 +10,7 @@ mod sim;
 mod stdtimer;
 mod timeconv;
 mod winst;
+mod wire;
 
 use serde_json::{Value, json};
 use std::alloc::{GlobalAlloc, Layout, System};
@@ -166,6 +167,10 @@ fn main() {
         "timer" => {
             let n = |k: &str, d: usize| arg(&args, k).and_then(|s| s.parse().ok()).unwrap_or(d);
             stdtimer::run(&arg(&args, "--out").expect("--out"), n("--threads", 8), n("--sleeps", 40), n("--seed", 1) as u64);
+        }
+        "wire" => {
+            let rep = wire::run_cases(&arg(&args, "--cases").expect("--cases"));
+            std::fs::write(arg(&args, "--out").expect("--out"), serde_json::to_string(&rep).unwrap()).unwrap();
         }
         "timeconv" => {
             let rep = timeconv::run_cases(&arg(&args, "--cases").expect("--cases"), args.iter().any(|a| a == "--exhaustive"));
